@@ -53,7 +53,7 @@ func (r *Runner) Crash() (ok bool, err error) {
 			return false, err
 		}
 	}
-	if p := guard(func() { r.App = newApp(r.db, r.Home) }); p != nil {
+	if p := guard(func() { r.App = newAppOpts(r.db, r.Home, r.backend == "goleveldb") }); p != nil {
 		return false, fmt.Errorf("restart: application does not load: %v", p)
 	}
 	r.gov, r.blk = nil, blockLog{}
